@@ -7,6 +7,7 @@ package ugo
 import (
 	"fmt"
 	"io"
+	"math"
 	"reflect"
 
 	"github.com/ozanh/ugo/internal"
@@ -512,8 +513,14 @@ func (c *Compiler) addConstant(obj Object) (index int) {
 		}
 	}()
 
-	switch obj.(type) {
+	switch v := obj.(type) {
 	case Int, Uint, String, Bool, Float, Char, *UndefinedType:
+		if f, isFloat := v.(Float); isFloat && f == 0 && math.Signbit(float64(f)) {
+			// negative zero and zero are the same map key, do not cache it
+			index = len(c.constants)
+			c.constants = append(c.constants, obj)
+			return
+		}
 		i, ok := c.constsCache[obj]
 		if ok {
 			index = i
